@@ -137,6 +137,31 @@ pub fn faults() -> Vec<Fault> {
         // a valid configuration that declares a task of the very name the faulty one lacks
         Some("CONFIGURATION goodcfg RESOURCE r2 ON PLC TASK nope ( PRIORITY := 1 ) ; PROGRAM p2 WITH nope : Main ; END_RESOURCE END_CONFIGURATION"),
     ));
+    // an undeclared variable is not cured by a declaration of that name somewhere else: variables belong to their unit
+    out.push(one(
+        "decl:P0015-undeclared-variable",
+        "FUNCTION_BLOCK BadUse VAR a : INT ; END_VAR a := zz9 ; END_FUNCTION_BLOCK",
+        "P0015",
+        Some("FUNCTION_BLOCK GoodUse VAR zz9 : INT ; END_VAR zz9 := 1 ; END_FUNCTION_BLOCK"),
+    ));
+    out.push(one(
+        "decl:P0015-undeclared-variable-and-a-user-that-declares-it",
+        "FUNCTION_BLOCK BadUse2 VAR a : INT ; END_VAR a := zz9 ; END_FUNCTION_BLOCK",
+        "P0015",
+        Some("FUNCTION_BLOCK GoodUser VAR zz9 : INT ; inner : BadUse2 ; END_VAR inner ( ) ; zz9 := 1 ; END_FUNCTION_BLOCK"),
+    ));
+    out.push(one(
+        "decl:P0015-undeclared-variable-in-a-program-beside-a-global-of-that-name",
+        "PROGRAM BadProg VAR a : INT ; END_VAR a := zz9 ; END_PROGRAM",
+        "P0015",
+        Some("CONFIGURATION cfg9 VAR_GLOBAL zz9 : INT ; END_VAR RESOURCE r9 ON PLC TASK t9 ( PRIORITY := 1 ) ; PROGRAM p9 WITH t9 : Main ; END_RESOURCE END_CONFIGURATION"),
+    ));
+    out.push(one(
+        "decl:P0015-undeclared-variable-in-a-function-beside-a-function-that-declares-it",
+        "FUNCTION BadFn2 : INT VAR_INPUT a : INT ; END_VAR BadFn2 := a + zz9 ; END_FUNCTION",
+        "P0015",
+        Some("FUNCTION GoodFn2 : INT VAR_INPUT zz9 : INT ; END_VAR GoodFn2 := zz9 ; END_FUNCTION"),
+    ));
     // P0017 needs the callee to exist: a self-contained pair
     out.push(Fault {
         kind: "decl:P0017-constant-fb-instance".into(),
